@@ -279,7 +279,7 @@ static void judge_extract(Rng &r, int p, Carrier &c, const Rec &rec, const Rec *
     *hash = vf::mix(*hash, vf::fnv1a(witness));
   Caller caller = make_caller(r);
   witness += " caller=" + caller.kind;
-  context_api::Context out = propagator(p).Extract(c, caller.ctx);
+  context_api::Context out = extract_stable(propagator(p), c, caller, rec.cls, witness);
   c.kill(r.coin());
   Outcome o = judge_returned(caller, out, rec.cls, witness);
   R.count("extracts");
@@ -429,7 +429,7 @@ static void roundtrip(Rng &r, int p, const std::string &tid, const std::string &
     wire = rec_b3(in);
   }
   Caller caller = make_caller(r);
-  context_api::Context out = propagator(p).Extract(c, caller.ctx);
+  context_api::Context out = extract_stable(propagator(p), c, caller, "roundtrip:" + cls, witness);
   c.kill(r.coin());
   Outcome o = judge_returned(caller, out, "roundtrip:" + cls, witness);
   bool ok   = false;
